@@ -74,7 +74,7 @@ def run(chk, replay=None):
         if r.generated != r.distinct:
             raise vlib.Infra("C10Cases generated duplicate cases (%d/%d)" % (r.generated, r.distinct))
         t1, res = os.path.join(d, "t1.ndjson"), os.path.join(d, "cases.res")
-        vlib.run_harness("c10.cases", cases, res, {"trace": t1, "revpass": 1})
+        vlib.run_harness("c10.cases", cases, res, {"trace": t1, "revpass": 1, "arena": 1})
         chk.ingest_results(res, part="cases_replay")
         chk.cov["exhaustive"] = True
         os.remove(cases)
